@@ -155,6 +155,15 @@ func (r *c11) Exec(op []string) string {
 		}
 		return sb.String()
 
+	case "lcsview":
+		// both arguments are views of ONE backing array with the same start: lhs[:a] and lhs[:b]
+		base := slices.Clone(r.lhs)
+		a, b := min(atoi(op[1]), len(base)), min(atoi(op[2]), len(base))
+		res := slice.LCS(base[:a], base[:b])
+		r.st.Note("lcs-aliased-views")
+		mod := !slices.Equal(base, r.lhs)
+		return fmt.Sprintf("res=%s nil=%s mod=%s", fmtInts(res), fmtBool(res == nil), fmtBool(mod))
+
 	case "lcs", "lcsf":
 		lhs, rhs := slices.Clone(r.lhs), slices.Clone(r.rhs)
 		var res []int
@@ -350,7 +359,13 @@ func genC11Pairs(calls ...string) func(g *G) {
 			if g.Chance(1, 10) {
 				b = slices.Clone(a)
 			}
-			g.Case(append([]string{"reset", c11line("l", a), c11line("r", b)}, calls...))
+			ops := append([]string{"reset", c11line("l", a), c11line("r", b)}, calls...)
+			if calls[0] == "lcs" && len(a) > 1 {
+				// both arguments as views of one backing array (same start, different lengths, both orders)
+				n := g.Intn(len(a))
+				ops = append(ops, fmt.Sprintf("lcsview %d %d", len(a), n), fmt.Sprintf("lcsview %d %d", n, len(a)), fmt.Sprintf("lcsview %d %d", len(a), len(a)))
+			}
+			g.Case(ops)
 		}
 	}
 }
